@@ -323,6 +323,20 @@ NATIVE_REGRESSIONS = {
 }
 
 
+def engine_selftest(chk):
+    """conformance of the engine with CPython on the language subtleties behind earlier misses (tools/selftest_engine.py; < 1 s): an engine that
+    excludes what CPython does is unsound, and nothing it 'proves' is reported"""
+    try:
+        p_ = subprocess.run([sys.executable, os.path.join(VERIF, "tools", "selftest_engine.py")], capture_output=True, text=True, timeout=300)
+        last = (p_.stdout.strip().splitlines() or [""])[-1]
+        if p_.returncode != 0:
+            chk.fault(f"engine conformance self-test failed: {p_.stdout[-400:]} {p_.stderr[-300:]}")
+        else:
+            chk.notes.append(last)
+    except Exception as e:  # noqa: BLE001
+        chk.fault(f"engine conformance self-test could not run: {e!r}")
+
+
 def native_regressions(chk):
     try:  # the one syntactic rewrite of the extraction, executed natively next to the original (tools/selftest_normalise.py)
         p_ = subprocess.run([sys.executable, os.path.join(VERIF, "tools", "selftest_normalise.py")], capture_output=True, text=True, timeout=120)
@@ -366,6 +380,7 @@ def run_check(prop, fn, tier, seed):
     except (ValueError, AttributeError):
         pass
     try:
+        engine_selftest(chk)
         fn(chk)
         if tier == "thorough":
             native_regressions(chk)
